@@ -182,12 +182,12 @@ def check_c11(pid, tier, seed, replay):
     cases, n = mc_dbg(ck, 3 if quick else 4, "{1, 2, 3, 4, 5, 6, 7, 8}")
     all_lines = [l for l in open(cases).read().split("\n") if l.strip()]
     rng.shuffle(all_lines)
-    if quick and len(all_lines) > 8000:
-        ck.cov["vacuity"]["R_sampled_of"] = [8000, len(all_lines)]
-        all_lines = all_lines[:8000]
-    for k in range(0, len(all_lines), 4000):
+    if quick and len(all_lines) > 20000:
+        ck.cov["vacuity"]["R_sampled_of"] = [20000, len(all_lines)]
+        all_lines = all_lines[:20000]
+    for k in range(0, len(all_lines), 5000):
         part = os.path.join(os.path.dirname(cases), "part.json")
-        open(part, "w").write("\n".join(all_lines[k:k + 4000]) + "\n")
+        open(part, "w").write("\n".join(all_lines[k:k + 5000]) + "\n")
         validate_sessions(ck, run_cli("dbg", part, "R"), 14, describe_dbg, "R", "dbg")
         if ck.enough():
             return ck.finish()
@@ -226,12 +226,18 @@ def check_c11(pid, tier, seed, replay):
         p = M.print_cps([65]) + M.push_value(0xAC00) + [M.C(5, copies, stream)]
         tc.append({"prog": p, "script": [["n"]] * len(p) + [["s"]]})
         tc.append({"prog": p, "script": [["r"], ["s"]]})
+    # long histories: hundreds of snapshots taken by `run` (and by `next`), then more `previous` than any
+    # bounded history would keep, then the state; and the same again after going forward once more
+    for prog, fwd, k in ((P7, "r", 160), (P7, "n", 330), (P8, "r", 90), (P7, "r", 300 if quick else 700), (P8, "r", 150 if quick else 400)):
+        back = (2 * k if fwd == "r" else k) + 7
+        tc.append({"prog": prog, "script": [[fwd]] * k + [["s"]] + [["p"]] * back + [["s"]] + [["n"]] * 3 + [["s"], ["r"], ["p"], ["s"]]})
+        tc.append({"prog": prog, "script": [[fwd]] * k + [["p"]] * (back // 2) + [["s"], ["r"], ["s"]] + [["p"]] * 9 + [["s"]]})
     work = tmpdir("c11_T")
     cpath = os.path.join(work, "cases.json")
     M.write_cases(cpath, tc)
     validate_sessions(ck, run_cli("dbg", cpath, "T"), 14, describe_dbg, "T", "dbg")
     ck.sample({"program": M.prog_text(tc[5]["prog"]), "script": script_str(tc[5]["script"])[:300]})
-    ck.cov["rule"] = "R: every command sequence up to the bound on eight programs (quick tier: a seeded sample of 8000, see vacuity) and every script of 4-5 commands over n/p/s/r on two looping programs; T: seeded programs x scripts of 5-300 commands"
+    ck.cov["rule"] = "R: every command sequence up to the bound on eight programs (quick tier: script length 3, thorough: 4) and every script of 4-5 commands over n/p/s/r on two looping programs; T: seeded programs x scripts of 5-300 commands, and histories of 300+ snapshots undone completely"
     return ck.finish()
 
 
@@ -414,6 +420,22 @@ def scenarios(rng, quick):
         out.append({"sub": "check", "level": 0, "fileKind": "ok", "file": list(txt), "stdin": [], "kind": "width"})
         if ncmd <= 102:
             out.append({"sub": "run", "level": 2, "fileKind": "ok", "file": list(txt), "stdin": [], "kind": "width"})
+    # listings whose line and column numbers have different decimal widths (the columns of `check` are
+    # padded to the widest): two or three commands placed at (line, column) positions of 1-4 digits
+    pos = [(ln, col) for ln in (1, 9, 10, 100, 1000) for col in (0, 9, 10, 100, 1000)]
+    pairs = [(a, b) for a in pos for b in pos if a[0] < b[0]]
+    for a, b in (rng.sample(pairs, 36) if quick else pairs):
+        c = rng.choice(pos)
+        places = sorted(set([a, b] + ([c] if c[0] not in (a[0], b[0]) and rng.random() < 0.4 else [])))
+        lines, cur = [], 1
+        for ln, col in places:
+            lines += [""] * (ln - cur)
+            lines.append(" " * col + "형.")
+            cur = ln + 1
+        txt = "\n".join(lines).encode()
+        out.append({"sub": "check", "level": 0, "fileKind": "ok", "file": list(txt), "stdin": [], "kind": "tall"})
+        if rng.random() < 0.25:
+            out.append({"sub": "run", "level": rng.choice([0, 1, 2]), "fileKind": "ok", "file": list(txt), "stdin": [], "kind": "tall"})
     for depth in (100, 1000, 4096):
         txt = ("형" + "?♥!" * (depth // 2)).encode()
         out.append({"sub": "check", "level": 0, "fileKind": "ok", "file": list(txt), "stdin": [], "kind": "deep"})
